@@ -27,6 +27,10 @@ func c01NewManager(scaleMin bool, sysMax, defMax corev1.ResourceList) *c01Manage
 	return NewGroupQuotaManager("", scaleMin, sysMax, defMax)
 }
 
+func c01NewTreeManager(tree string, scaleMin bool, sysMax, defMax corev1.ResourceList) *c01Manager {
+	return NewGroupQuotaManager(tree, scaleMin, sysMax, defMax)
+}
+
 func c01Quiet() {
 	klog.LogToStderr(false)
 	klog.SetOutput(io.Discard)
@@ -43,6 +47,9 @@ func c01NewCoreDriver(scaleMin bool, sysMax, defMax corev1.ResourceList) c01Driv
 }
 
 func (d *c01CoreDriver) Manager() *c01Manager { return d.gqm }
+func (d *c01CoreDriver) Summaries() map[string]map[string]*c01Summary {
+	return map[string]map[string]*c01Summary{"": d.gqm.GetQuotaSummaries(true)}
+}
 
 // OnQuotaAdd / OnQuotaUpdate both end in UpdateQuota(new) (an add for a quota the manager already knows is dropped
 // by the plugin; the model never re-adds a live quota).
